@@ -171,7 +171,11 @@ func c12CheckBeta(c c12BetaCase) (v vcase.Verdict) {
 		if xs[0] > xs[1] {
 			lo, hi = 1, 0
 		}
-		if vals[lo] > vals[hi]+1e-13 {
+		// 1e-13 for rounding as for the distribution functions, plus the
+		// noise of the prefactor x^a(1−x)^b whose arguments are rounded to ε
+		// relative: (a+b)·ε relative on values ≤ 1 (observed 1.2e-13 at
+		// a = 427, b = 5e4).
+		if vals[lo] > vals[hi]+1e-13+(a+b)*c12Eps {
 			v.Failf("I_x(%v,%v) not monotone: I_%v = %.17g > I_%v = %.17g", a, b, xs[lo], vals[lo], xs[hi], vals[hi])
 			return
 		}
